@@ -36,7 +36,8 @@ TerminalEquivalence ==
         IF FailFast
         THEN (m.lastRet = "STREAM_END" => (St(m.given).ret = "STREAM_END" /\ m.delivered = St(m.given).out))
              /\ (St(FileLen).ret = "STREAM_END" /\ m.given = FileLen => m.lastRet = "STREAM_END")
-        ELSE m.lastRet = St(m.given).ret /\ m.delivered = St(m.given).out
+        \* (an injected allocation failure is the one way to end otherwise: after a prefix of the right output)
+        ELSE (MayFailMain /\ m.lastRet = "MEM_ERROR") \/ (m.lastRet = St(m.given).ret /\ m.delivered = St(m.given).out)
 
 \* "No progress is possible" is only said when the sequential decoder, given the same bytes and output
 \* space, could not progress either.
@@ -69,7 +70,7 @@ MemlimitEquivalence ==
 
 \* internal codes never escape
 DocumentedCodes == m.lastRet \in {"OK", "STREAM_END", "BUF_ERROR", "DATA_ERROR", "OPTIONS_ERROR", "MEMLIMIT_ERROR"}
-                                  \cup (IF Tell = "none" THEN {} ELSE {Tell})
+                                  \cup (IF Tell = "none" THEN {} ELSE {Tell}) \cup (IF MayFailMain THEN {"MEM_ERROR"} ELSE {})
 \* the Check notification comes exactly once per Stream, right after its Stream Header
 TellOncePerStream == m.tells = (IF Tell = "none" THEN 0 ELSE m.copy + (IF m.seq = "HDR" THEN 0 ELSE 1))
 
